@@ -1,7 +1,7 @@
 (* C14 phase 2: agreement of the two reader models on modules without blackbox instances (part A2) *)
 From stdpp Require Import strings gmap sets pretty.
-From CG Require Import Model.FastVerilog Proofs.FastVerilogProofs Proofs.ApiProofs.
-From CG Require Import Proofs.FvA1.
+From CG Require Import Model.FastVerilog Proofs.FastVerilogProofs.
+From CG Require Import Proofs.FvA0 Proofs.FvA1.
 Open Scope string_scope.
 
 Lemma connect_nil_r c us : connect_g c us [] = (c, Done).
